@@ -471,3 +471,57 @@ func init() {
 			Old: "\tval, err := dec.ReadValue()\n\tif err != nil {\n\t\treturn err\n\t}\n", New: "\tval, err := dec.ReadValue()\n\tif err != nil {\n\t\treturn err\n\t}\n\tdec.PeekKind()\n", Rule: "STALE-2"},
 	)
 }
+
+func init() {
+	addMutants(
+		// ---- round-c strengthening: UNWRITE-2, NS-3 all levels, ADDR-1, VERB-1, GLOBAL-2, OPT-7, POOL-2
+		Mutant{ID: "unwrite2-flush-skips-avoidflush", Props: []string{"C07", "C15"}, File: "jsontext/encode.go", Func: "encoderState.Flush",
+			Old: "if e.wr == nil || e.avoidFlush() {", New: "if e.wr == nil {", Rule: "UNWRITE-2"},
+		Mutant{ID: "unwrite2-avoidflush-objects-only", Props: []string{"C07", "C15"}, File: "jsontext/encode.go", Func: "encoderState.avoidFlush",
+			Old: "case e.Tokens.Last.Length() == 0:", New: "case e.Tokens.Last.isObject() && e.Tokens.Last.Length() == 0:", Rule: "UNWRITE-2"},
+		Mutant{ID: "unwrite2-avoidflush-drops-value-guard", Props: []string{"C07", "C15"}, File: "jsontext/encode.go", Func: "encoderState.avoidFlush",
+			Old: "\tcase e.Tokens.Last.needObjectValue():\n\t\t// Never flush before the object value since we don't know yet\n\t\t// if the object value will end up being empty.\n\t\treturn true\n", New: "", Rule: "UNWRITE-2"},
+		Mutant{ID: "ns3-invalidate-only-last", Props: []string{"C02", "C08", "C06"}, File: "jsontext/state.go", Func: "stateMachine.InvalidateDisabledNamespaces",
+			Old: "\tfor i := range m.Depth() {\n\t\te := m.index(i)\n\t\tif !e.isActiveNamespace() {\n\t\t\te.invalidateNamespace()\n\t\t}\n\t}\n",
+			New: "\tif e := &m.Last; !e.isActiveNamespace() {\n\t\te.invalidateNamespace()\n\t}\n", Rule: "NS-3"},
+		Mutant{ID: "ns3-invalidate-skips-last", Props: []string{"C02", "C08"}, File: "jsontext/state.go", Func: "stateMachine.InvalidateDisabledNamespaces",
+			Old: "\tfor i := range m.Depth() {\n\t\te := m.index(i)\n", New: "\tfor i := range m.Stack {\n\t\te := &m.Stack[i]\n", Rule: "NS-3"},
+		Mutant{ID: "addr1-map-scratch-value-unforced", Props: []string{"C09", "C17"}, File: "arshal_default.go", Func: "makeMapArshaler",
+			Old: "v := addressableValue{vals.Index(i), true}", New: "v := addressableValue{vals.Index(i), false}", Rule: "ADDR-1"},
+		Mutant{ID: "addr1-struct-field-never-forced", Props: []string{"C09", "C17"}, File: "arshal_embedded.go", Func: "marshalEmbeddedFallbackAll",
+			Old: "v := addressableValue{va.Field(f.index0), va.forcedAddr}", New: "v := addressableValue{va.Field(f.index0), false}", Rule: "ADDR-1"},
+		Mutant{ID: "addr1-top-level-copy-unforced", Props: []string{"C09", "C17"}, File: "arshal.go", Func: "marshalEncode",
+			Old: "va := addressableValue{v.Elem(), forceAddr}", New: "va := addressableValue{v.Elem(), false}", Rule: "ADDR-1"},
+		Mutant{ID: "verb1-token-string-backslash-test", Props: []string{"C11", "C03"}, File: "jsontext/token.go", Func: "Token.string",
+			Old: "isVerbatim := jsonwire.ConsumeSimpleString(buf) == len(buf)", New: "isVerbatim := bytes.IndexByte(buf, '\\\\') < 0", Rule: "VERB-1"},
+		Mutant{ID: "verb1-v1-number-always-verbatim", Props: []string{"C11", "C03"}, File: "v1/decode.go", Func: "Number.UnmarshalJSONFrom",
+			Old: "val = jsonwire.UnquoteMayCopy(val, verbatim)", New: "_ = verbatim\n\t\tval = jsonwire.UnquoteMayCopy(val, true)", Rule: "VERB-1"},
+		Mutant{ID: "global2-shared-empty-map", Props: []string{"C14", "C18", "C03"}, File: "arshal_any.go",
+			Old: "func unmarshalObjectAny(dec *jsontext.Decoder, uo *jsonopts.Struct) (map[string]any, error) {\n\tswitch tok, err := dec.ReadToken(); {\n\tcase err != nil:\n\t\treturn nil, err\n\tcase tok.Kind() != '{':\n\t\tpanic(\"BUG: invalid kind: \" + tok.Kind().String())\n\t}\n",
+			New: "var sharedEmptyObject = map[string]any{}\n\nfunc unmarshalObjectAny(dec *jsontext.Decoder, uo *jsonopts.Struct) (map[string]any, error) {\n\tswitch tok, err := dec.ReadToken(); {\n\tcase err != nil:\n\t\treturn nil, err\n\tcase tok.Kind() != '{':\n\t\tpanic(\"BUG: invalid kind: \" + tok.Kind().String())\n\t}\n\tif dec.PeekKind() == '}' {\n\t\t_, err := dec.ReadToken()\n\t\treturn sharedEmptyObject, err\n\t}\n", Rule: "GLOBAL-2"},
+		Mutant{ID: "opt7-join-returns-argument", Props: []string{"C19"}, File: "options.go", Func: "JoinOptions",
+			Old: "func JoinOptions(srcs ...Options) Options {\n", New: "func JoinOptions(srcs ...Options) Options {\n\tif len(srcs) == 1 {\n\t\tif s, ok := srcs[0].(*jsonopts.Struct); ok {\n\t\t\treturn s\n\t\t}\n\t}\n", Rule: "OPT-7"},
+		Mutant{ID: "pool2-conditional-map-reset", Props: []string{"C18", "C06", "C08", "C03", "C04"}, File: "jsontext/state.go", Func: "objectNamespace.reset",
+			Old: "\tns.mapNames = nil\n", New: "\tif cap(ns.endOffsets) > 1<<6 {\n\t\tns.mapNames = nil\n\t}\n", Rule: "POOL-2"},
+		Mutant{ID: "peek1-checknextvalue-keeps-cache", Props: []string{"C05", "C20"}, File: "jsontext/decode.go", Func: "decoderState.CheckNextValue",
+			Old: "\td.PeekKind() // populates d.peekPos and d.peekErr\n\tpos, err := d.peekPos, d.peekErr\n\td.peekPos, d.peekErr = 0, nil\n", New: "\td.PeekKind() // populates d.peekPos and d.peekErr\n\tpos, err := d.peekPos, d.peekErr\n\tif err != nil {\n\t\td.peekPos, d.peekErr = 0, nil\n\t}\n", Rule: "PEEK-1"},
+	)
+}
+
+func init() {
+	addMutants(
+		// ---- C10: NUMWIDTH-1
+		Mutant{ID: "numwidth-float-marshal-const64", Props: []string{"C10"}, File: "arshal_default.go", Func: "makeFloatArshaler",
+			Old: "return jsonwire.AppendFloat(b, va.Float(), bits), nil", New: "return jsonwire.AppendFloat(b, va.Float(), 64), nil", Rule: "NUMWIDTH-1"},
+		Mutant{ID: "numwidth-float-parse-const64", Props: []string{"C10"}, File: "arshal_default.go", Func: "makeFloatArshaler",
+			Old: "fv, err := strconv.ParseFloat(string(val), bits)", New: "fv, err := strconv.ParseFloat(string(val), 64)", Rule: "NUMWIDTH-1"},
+		Mutant{ID: "numwidth-uint-skips-sign", Props: []string{"C10"}, File: "arshal_default.go", Func: "makeUintArshaler",
+			Old: "n, ok := jsonwire.ParseUint(val)\n", New: "n, ok := jsonwire.ParseUint(bytes.TrimPrefix(val, []byte(\"-\")))\n", Rule: "NUMWIDTH-1"},
+		Mutant{ID: "numwidth-int-bound-constant", Props: []string{"C10"}, File: "arshal_default.go", Func: "makeIntArshaler",
+			Old: "maxInt := uint64(1) << (bits - 1)", New: "maxInt := uint64(1) << 63", Rule: "NUMWIDTH-1"},
+		Mutant{ID: "numwidth-token-float32-as-64", Props: []string{"C10"}, File: "jsontext/token.go", Func: "Token.string",
+			Old: "return string(jsonwire.AppendFloat(nil, float64(math.Float32frombits(uint32(t.num))), 32)), nil", New: "return string(jsonwire.AppendFloat(nil, float64(math.Float32frombits(uint32(t.num))), 64)), nil", Rule: "NUMWIDTH-1"},
+		Mutant{ID: "numwidth-any-float-from-32", Props: []string{"C10"}, File: "arshal_any.go", Func: "unmarshalValueAny",
+			Old: "fv, err := strconv.ParseFloat(string(val), 64)", New: "fv, err := strconv.ParseFloat(string(val), 32)", Rule: "NUMWIDTH-1"},
+	)
+}
